@@ -17,7 +17,8 @@ prop(
     "try_load_data_into itself, whereas in the connection nothing calls it (qconnection/src/path/burst.rs Components::packages has `// TODO: datagram`). That clause, "
     "loss schedules and the ProtocolViolation close on the wire belong to the whole-stack (L2) leg. Trusted: the 30-line packet target and the FIFO model.",
     design_ref="DESIGN.md §3 C19",
-    legs=[dict(name="datagram", crate="l1rec", sub="c19", shards={Q: 8, T: 16}, budget={Q: 8000, T: 150000}, timeout=1500)],
+    legs=[dict(name="datagram", crate="l1rec", sub="c19", shards={Q: 8, T: 16}, budget={Q: 8000, T: 150000}, timeout=1500),
+          dict(name="l2", crate="l2", sub="c19", shards={Q: 8, T: 16}, budget={Q: 12, T: 150}, timeout={Q: 900, T: 7200})],
     floors={
         Q: {
             "sweep_cases": 5000,
